@@ -199,11 +199,9 @@ func (m *Machine) visitInstr(fr *frame, instr ssa.Instruction) continuation {
 				m.sliceOf[p] = elems[idx.Val:cap(elems)]
 			}
 			fr.env[instr] = p
-		} else if scalarElems(elems) {
-			fr.env[instr] = &SymElem{Elems: elems, Idx: idx}
 		} else {
-			i := m.concretize(idx, "indexaddr@"+fr.where())
-			fr.env[instr] = &elems[i]
+			// loads fork on classes of equal elements; stores concretise the index
+			fr.env[instr] = &SymElem{Elems: elems, Idx: idx}
 		}
 
 	case *ssa.Index:
@@ -217,8 +215,7 @@ func (m *Machine) visitInstr(fr *frame, instr ssa.Instruction) continuation {
 			} else if scalarElems(x) {
 				fr.env[instr] = loadSym(&SymElem{Elems: x, Idx: idx})
 			} else {
-				i := m.concretize(idx, "index@"+fr.where())
-				fr.env[instr] = x[i]
+				fr.env[instr] = m.loadClass(fr, &SymElem{Elems: x, Idx: idx})
 			}
 		case Str:
 			fr.env[instr] = m.strIndex(fr, x, idx)
@@ -314,7 +311,10 @@ func (m *Machine) load(fr *frame, p Value) Value {
 		}
 		return copyVal(*p)
 	case *SymElem:
-		return loadSym(p)
+		if scalarElems(p.Elems) {
+			return loadSym(p)
+		}
+		return m.loadClass(fr, p)
 	case **deferred:
 		return *p
 	}
@@ -335,7 +335,12 @@ func (m *Machine) store(fr *frame, p Value, v Value) {
 		if m.inMerge {
 			panic(mergeAbort{"store in merge region"})
 		}
-		vt := v.(*Term)
+		vt, isT := v.(*Term)
+		if !isT || !scalarElems(p.Elems) {
+			i := m.concretize(p.Idx, "store-index@"+fr.where())
+			p.Elems[i] = copyVal(v)
+			return
+		}
 		for i := range p.Elems {
 			p.Elems[i] = Ite(Eq(p.Idx, BV(64, uint64(i))), vt, p.Elems[i].(*Term))
 		}
@@ -528,3 +533,90 @@ func (m *Machine) panicString(v Value) string {
 }
 
 var _ = token.ADD
+
+// loadClass loads through a symbolic index into a table of non-scalar elements
+// by forking on the classes of identical elements (one fork per distinct value
+// rather than one per index).
+func (m *Machine) loadClass(fr *frame, p *SymElem) Value {
+	type class struct {
+		rep  Value
+		cond *Term
+	}
+	var classes []*class
+	n := len(p.Elems)
+	for i := 0; i < n; {
+		j := i
+		for j+1 < n && identicalValue(p.Elems[j+1], p.Elems[i]) {
+			j++
+		}
+		// indices i..j hold identical values
+		var c *Term
+		if i == j {
+			c = Eq(p.Idx, BV(64, uint64(i)))
+		} else {
+			c = And(Not(Cmp(OpUlt, p.Idx, BV(64, uint64(i)))), Cmp(OpUlt, p.Idx, BV(64, uint64(j+1))))
+		}
+		found := false
+		for _, cl := range classes {
+			if identicalValue(cl.rep, p.Elems[i]) {
+				cl.cond = Or(cl.cond, c)
+				found = true
+				break
+			}
+		}
+		if !found {
+			classes = append(classes, &class{p.Elems[i], c})
+		}
+		i = j + 1
+	}
+	alts := make([]*Term, len(classes))
+	for i, cl := range classes {
+		alts[i] = cl.cond
+	}
+	k := m.chooseEx(alts, "table-class@"+fr.where(), true)
+	return copyVal(classes[k].rep)
+}
+
+// identicalValue is a cheap syntactic identity used to group table entries.
+func identicalValue(a, b Value) bool {
+	switch x := a.(type) {
+	case []Value:
+		y, ok := b.([]Value)
+		if !ok {
+			return false
+		}
+		if x == nil || y == nil {
+			return x == nil && y == nil
+		}
+		return len(x) == len(y) && cap(x) == cap(y) && (len(x) == 0 || &x[0] == &y[0])
+	case Struct:
+		y, ok := b.(Struct)
+		if !ok || len(x) != len(y) {
+			return false
+		}
+		for i := range x {
+			if !identicalValue(x[i], y[i]) {
+				return false
+			}
+		}
+		return true
+	case Array:
+		y, ok := b.(Array)
+		if !ok || len(x) != len(y) {
+			return false
+		}
+		for i := range x {
+			if !identicalValue(x[i], y[i]) {
+				return false
+			}
+		}
+		return true
+	case *Closure:
+		y, ok := b.(*Closure)
+		return ok && x == y
+	case *Map:
+		y, ok := b.(*Map)
+		return ok && x == y
+	}
+	return sameKeyObject(a, b)
+}
